@@ -572,9 +572,15 @@ func emit(e *exec) ([]string, emitStats) {
 	var lo, hi int64
 	invokeT := map[int]int64{}
 	tw := func(s string) string {
-		// "(label, obs)" -> "ev lo hi (label) (obs)": the obs starts at the last ", Ob"
+		// "(label, obs)" -> "ev lo hi (label) (obs)": the obs starts at the last ", Ob".  Stamps in us: lo rounded
+		// down, hi rounded up (still a lower / an upper bound); only joins and wake-ups are looked at by the timed
+		// step, every other event carries 0 0 (Coq elaborates small literals much faster).
 		k := strings.LastIndex(s, ", Ob")
-		return fmt.Sprintf("ev %d %d (%s) (%s)", lo, hi, s[1:k], s[k+2:len(s)-1])
+		l, h := lo/1000, (hi+999)/1000
+		if !strings.HasPrefix(s, "(LJoin") && !strings.HasPrefix(s, "(LWake") {
+			l, h = 0, 0
+		}
+		return fmt.Sprintf("ev %d %d (%s) (%s)", l, h, s[1:k], s[k+2:len(s)-1])
 	}
 	flush := func(g int) {
 		if pendingCancel[g] {
@@ -1229,7 +1235,7 @@ func main() {
 			continue
 		}
 		// a MaxSize beyond any possible number of callers is "never full"; the model gets 1000 for it (nat literal)
-		wns, mns := int64(c.WaitUs)*1000, int64(c.MaxDurUs)*1000
+		wns, mns := int64(c.WaitUs), int64(c.MaxDurUs) // the unit of the timed replay is 1 us
 		terms = append(terms, fmt.Sprintf("(%d, mk_tcase [%d; %d] [((%d)%%Z, (%d)%%Z); ((%d)%%Z, (%d)%%Z)] %s %v)", idx, mini(c.MaxSize, 1000), mini(c.MaxSize2, 1000),
 			wns, mns, wns, mns, vh.CoqList(evs), all))
 		if len(terms) >= shard {
